@@ -28,6 +28,12 @@ def outdir(pid, sub=None):
 def clean_dir(d):
     shutil.rmtree(d, ignore_errors=True)
     os.makedirs(d, exist_ok=True)
+    # stale replay files of an earlier run of this property
+    parent = os.path.dirname(d)
+    if os.path.basename(d) == "work":
+        for f in os.listdir(parent):
+            if f.startswith("replay-") and f.endswith(".json"):
+                os.remove(os.path.join(parent, f))
     return d
 
 
